@@ -112,6 +112,12 @@ pub fn cases(tier: Tier) -> Vec<Case> {
             out.push(Case { program: "{a : b, a : a} == {a : b, a : a}".into(), bindings: bind(&["a", "b"], &[c, b]), key: format!("map2-eq:{}:{}", class(c), class(b)), lenient_err: false });
         }
     }
+    // the unselected branch of a conditional is not evaluated: no fault, no assignment
+    for c in [Value::Bool(true), Value::Bool(false)] {
+        for prog in ["c ? 1 : 1 / 0", "c ? 1 / 0 : 2", "c ? (x = 1) : (x = 2) ; x", "c ? 1 : nofn()", "c ? 'a' + 1 : 5", "(c ? 1 : 1 / 0) + (c ? 1 / 0 : 2)", "x = 5 ; c ? x : (x = 6) ; x"] {
+            out.push(Case { program: prog.into(), bindings: bind(&["c"], &[&c]), key: format!("ternary-lazy:{}:{}", prog.replace(' ', ""), show_value(&c)), lenient_err: false });
+        }
+    }
     // depth-2 compositions (a op1 b) op2 c
     let ops2 = ["+", "-", "*", "/", "%", "<", "<=", "==", "!=", "&&", "||", "|", "&", "<<", ">>", "in", "beginWith"];
     let small = if tier == Tier::Quick { alphabet_small() } else { alphabet() };
